@@ -15,57 +15,102 @@ Inductive Ancestor (h : hier) : cls -> cls -> Prop :=
 | Anc_self c : Ancestor h c c
 | Anc_up c p a : nth_error h c = Some (Some p) -> Ancestor h p a -> Ancestor h c a.
 
-(* every class is created after its parent (parent number < own number): true of
-   every forest the harness builds; it makes the parent walk well-founded *)
-Fixpoint forest_ok_from (i : nat) (h : hier) : bool :=
-  match h with
-  | [] => true
-  | p :: r => match p with Some q => q <? i | None => true end && forest_ok_from (S i) r
+(* the n-th ancestor of c, if the parent chain is that long *)
+Fixpoint up (h : hier) (n : nat) (c : cls) : option cls :=
+  match n with
+  | 0 => Some c
+  | S n' => match nth_error h c with Some (Some p) => up h n' p | _ => None end
   end.
-Definition forest_ok (h : hier) : bool := forest_ok_from 0 h.
 
-Lemma forest_ok_from_parent h : forall i c p,
-  forest_ok_from i h = true -> nth_error h c = Some (Some p) -> p < i + c.
+Lemma ancestor_up h c a : Ancestor h c a <-> exists n, up h n c = Some a.
 Proof.
-  induction h as [|q r IH]; intros i [|c] p H E; simpl in *; try discriminate.
-  - injection E as ->. apply andb_prop in H as [H _]. apply Nat.ltb_lt in H. lia.
-  - apply andb_prop in H as [_ H]. specialize (IH _ _ _ H E). lia.
+  split.
+  - induction 1 as [c|c p a E HA [n IH]]; [now exists 0|]. exists (S n). simpl. now rewrite E.
+  - intros [n H]. revert c H. induction n as [|n IH]; simpl; intros c H.
+    + injection H as ->. constructor.
+    + destruct (nth_error h c) as [[p|]|] eqn:E; try discriminate. eapply Anc_up; eauto.
 Qed.
 
-Lemma forest_ok_parent h c p : forest_ok h = true -> nth_error h c = Some (Some p) -> p < c.
-Proof. intros H E. apply (forest_ok_from_parent h 0 c p H E). Qed.
-
-Lemma anc_sound h f : forall c a, anc h f c a = true -> Ancestor h c a.
+Lemma anc_up_iff h f : forall c a, anc h f c a = true <-> exists n, n <= f /\ up h n c = Some a.
 Proof.
-  induction f as [|f IH]; intros c a H; cbn [anc] in H; apply orb_true_iff in H as [H|H].
-  - apply Nat.eqb_eq in H. subst. constructor.
-  - discriminate.
-  - apply Nat.eqb_eq in H. subst. constructor.
-  - destruct (nth_error h c) as [[p|]|] eqn:E; try discriminate.
-    eapply Anc_up; eauto.
+  induction f as [|f IH]; intros c a; cbn [anc].
+  - rewrite orb_false_r, Nat.eqb_eq. split.
+    + intros ->. exists 0. split; [lia|reflexivity].
+    + intros (n & Hn & H). assert (n = 0) by lia. subst. simpl in H. congruence.
+  - rewrite orb_true_iff, Nat.eqb_eq. split.
+    + intros [->|H]; [exists 0; split; [lia|reflexivity]|].
+      destruct (nth_error h c) as [[p|]|] eqn:E; try discriminate.
+      apply IH in H as (n & Hn & H). exists (S n). split; [lia|]. simpl. now rewrite E.
+    + intros ([|n] & Hn & H); simpl in H; [left; congruence|right].
+      destruct (nth_error h c) as [[p|]|] eqn:E; try discriminate.
+      apply IH. exists n. split; [lia|exact H].
 Qed.
 
-Lemma anc_complete h : forest_ok h = true ->
-  forall c a, Ancestor h c a -> forall f, c <= f -> anc h f c a = true.
+Lemma up_add h i : forall k c,
+  up h (i + k) c = match up h i c with Some x => up h k x | None => None end.
 Proof.
-  intros Hok c a HA. induction HA as [c|c p a E HA IH]; intros f Hf.
-  - destruct f; cbn [anc]; now rewrite Nat.eqb_refl.
-  - pose proof (forest_ok_parent h c p Hok E) as Hlt.
-    destruct f as [|f]; [lia|]. cbn [anc]. rewrite E, IH by lia. apply orb_true_r.
+  induction i as [|i IH]; intros k c; simpl; [reflexivity|].
+  destruct (nth_error h c) as [[p|]|]; auto.
 Qed.
 
-Lemma isinst_ancestor h c a : forest_ok h = true -> (isinst h c a = true <-> Ancestor h c a).
+Lemma up_before h n c a i :
+  up h n c = Some a -> i < n -> exists x, up h i c = Some x /\ x < length h.
 Proof.
-  intros Hok. unfold isinst. split; [apply anc_sound|].
-  intros HA. destruct HA as [c|c p a E HA].
-  - destruct (length h); cbn [anc]; now rewrite Nat.eqb_refl.
-  - apply (anc_complete h Hok); [eapply Anc_up; eauto|].
-    assert (c < length h) by (apply nth_error_Some; congruence). lia.
+  intros H Hi. replace n with (i + S (n - i - 1)) in H by lia. rewrite up_add in H.
+  destruct (up h i c) as [x|]; [|discriminate]. exists x. split; [reflexivity|].
+  cbn [up] in H. apply nth_error_Some. intros E. rewrite E in H. discriminate H.
 Qed.
 
-Lemma isinst_not_ancestor h c a : forest_ok h = true -> (isinst h c a = false <-> ~ Ancestor h c a).
+Lemma up_shortcut h n c a i j x :
+  up h n c = Some a -> up h i c = Some x -> up h j c = Some x -> j <= n ->
+  up h (i + (n - j)) c = Some a.
 Proof.
-  intros Hok. rewrite <- (isinst_ancestor h c a Hok). destruct (isinst h c a); split; congruence.
+  intros H Hi Hj Hle. replace n with (j + (n - j)) in H by lia.
+  rewrite up_add, Hj in H. now rewrite up_add, Hi.
+Qed.
+
+(* a chain that reaches a reaches it within (length h) steps: otherwise a class
+   would repeat on the way and the loop could be cut out (pigeonhole); the goal is
+   a boolean, so the case analysis is constructive *)
+Lemma isinst_complete h c a : Ancestor h c a -> isinst h c a = true.
+Proof.
+  intros HA. apply ancestor_up in HA as [n H]. unfold isinst.
+  revert H. induction n as [n IH] using lt_wf_ind. intros H.
+  destruct (le_lt_dec n (length h)) as [Hle|Hgt].
+  { apply anc_up_iff. now exists n. }
+  destruct (anc h (length h) c a) eqn:E; [reflexivity|exfalso].
+  assert (Hno : forall m, m < n -> up h m c <> Some a).
+  { intros m Hm Hu. discriminate (IH m Hm Hu). }
+  set (g := fun i => match up h i c with Some x => x | None => 0 end).
+  set (l := map g (seq 0 n)).
+  assert (Hlen : length l = n) by (unfold l; now rewrite map_length, seq_length).
+  assert (Hnth : forall i, i < n -> nth i l (g 0) = g i).
+  { intros i Hi. unfold l. rewrite map_nth, seq_nth by exact Hi. reflexivity. }
+  assert (Hnd : NoDup l).
+  { apply (NoDup_nth l (g 0)). rewrite Hlen. intros i j Hi Hj Heq.
+    rewrite !Hnth in Heq by assumption.
+    destruct (up_before h n c a i H Hi) as (x & Hx & _).
+    destruct (up_before h n c a j H Hj) as (y & Hy & _).
+    unfold g in Heq. rewrite Hx, Hy in Heq. subst y.
+    destruct (lt_eq_lt_dec i j) as [[Hlt|Heq]|Hlt]; [exfalso|exact Heq|exfalso].
+    - apply (Hno (i + (n - j))); [lia|]. eapply up_shortcut; eauto. lia.
+    - apply (Hno (j + (n - i))); [lia|]. eapply up_shortcut; eauto. lia. }
+  assert (Hincl : incl l (seq 0 (length h))).
+  { intros y Hy. unfold l in Hy. apply in_map_iff in Hy as (i & <- & Hi). apply in_seq in Hi.
+    destruct (up_before h n c a i H) as (x & Hx & Hlt); [lia|].
+    unfold g. rewrite Hx. apply in_seq. lia. }
+  pose proof (NoDup_incl_length Hnd Hincl) as Hc. rewrite Hlen, seq_length in Hc. lia.
+Qed.
+
+Lemma isinst_ancestor h c a : isinst h c a = true <-> Ancestor h c a.
+Proof.
+  split; [|apply isinst_complete].
+  unfold isinst. intros H. apply anc_up_iff in H as (n & _ & H). apply ancestor_up. now exists n.
+Qed.
+
+Lemma isinst_not_ancestor h c a : isinst h c a = false <-> ~ Ancestor h c a.
+Proof.
+  rewrite <- (isinst_ancestor h c a). destruct (isinst h c a); split; congruence.
 Qed.
 
 (* ---- "exactly the failures that are instances of only, in input order" ------ *)
@@ -93,9 +138,9 @@ Proof.
       try contradiction; try (f_equal; eauto); eauto.
 Qed.
 
-Lemma wanted_selected h only aws : forest_ok h = true -> Selected h only aws (wanted h only aws).
+Lemma wanted_selected h only aws : Selected h only aws (wanted h only aws).
 Proof.
-  intros Hok. unfold wanted. induction aws as [|a r IH]; simpl; [constructor|].
+  unfold wanted. induction aws as [|a r IH]; simpl; [constructor|].
   destruct (aout a) as [|c e] eqn:Ea.
   - simpl. now apply Sel_ret.
   - destruct (isinst h c only) eqn:Ei; simpl.
@@ -149,12 +194,11 @@ Proof.
 Qed.
 
 Lemma ok_iff_observed_ok rm h only tcall aws o :
-  forest_ok h = true ->
-  (ok (Case rm h only tcall aws o) = true <-> observed_ok rm h only aws o).
+  ok (Case rm h only tcall aws o) = true <-> observed_ok rm h only aws o.
 Proof.
-  intros Hok. unfold ok, observed_ok.
+  unfold ok, observed_ok.
   destruct (ofin o) as [[fk fe] ft]. cbn [fst snd].
-  pose proof (wanted_selected h only aws Hok) as Hsel.
+  pose proof (wanted_selected h only aws) as Hsel.
   split.
   - intros H. apply andb_prop in H as [H H3]. apply andb_prop in H as [H1 H2].
     apply Nat.eqb_eq in H1. apply all_done_by_spec in H2.
@@ -298,14 +342,13 @@ Section First.
 End First.
 
 Lemma raise_first_hierarchy_lemma h aws only tcall :
-  forest_ok h = true ->
   (forall e, raise_first_exc (isinst h) aws only tcall = Some (tdone tcall aws, Some e) <->
      exists pre a c post, aws = pre ++ a :: post /\ aout a = Raise c e /\ Ancestor h c only /\
        forall a' c' e', In a' pre -> aout a' = Raise c' e' -> ~ Ancestor h c' only) /\
   (raise_first_exc (isinst h) aws only tcall = Some (tdone tcall aws, None) <->
      forall a c e, In a aws -> aout a = Raise c e -> ~ Ancestor h c only).
 Proof.
-  intros Hok. rewrite raise_first_lemma. split.
+  rewrite raise_first_lemma. split.
   - intros e. split.
     + intros [= H]. apply hd_expected_some in H as (pre & a & c & post & E & H1 & H2 & H3).
       exists pre, a, c, post. repeat split; auto.
@@ -316,8 +359,13 @@ Proof.
       * now apply isinst_ancestor.
       * intros a' c' e' Hin Ho. apply isinst_not_ancestor; eauto.
   - split.
-    + intros [= H]. intros a c e Hin Ho. apply isinst_not_ancestor; [exact Hok|].
+    + intros [= H]. intros a c e Hin Ho. apply isinst_not_ancestor.
       eapply (proj1 (hd_expected_none _ _ _) H); eauto.
     + intros H. f_equal. f_equal. apply hd_expected_none. intros a c e Hin Ho.
       apply isinst_not_ancestor; eauto.
 Qed.
+
+(* the model's own trace satisfies the readable statement *)
+Lemma model_observed_ok rm h only tcall aws :
+  observed_ok rm h only aws (model_trace rm h only tcall aws).
+Proof. apply (ok_iff_observed_ok rm h only tcall aws). apply monitor_accepts_model_lemma. Qed.
